@@ -66,10 +66,19 @@ pub fn gen(rng: &mut Prng) -> Cfg {
         let t = *rng.pick(&[0, p / 2, p, p + 1000, p * 5 / 2, 1000]);
         ("builder", win, l, p, t)
     };
+    // extreme-but-valid values: a window that never refreshes, "wait as long as it takes"
+    let (p_us, timeout_us) = if preset == "builder" && rng.chance(0.05) {
+        (*rng.pick(&[u64::MAX, u64::MAX / 2]), *rng.pick(&[0u64, 10_000, 1_000_000]))
+    } else if preset == "builder" && rng.chance(0.04) {
+        (p_us, u64::MAX)
+    } else {
+        (p_us, timeout_us)
+    };
     let groups = if rng.chance(0.1) { 2 } else { 1 };
     let mut callers = vec![];
     let mut seq = vec![];
-    let p = p_us;
+    // arrival grids are laid out on a finite stand-in when the period is astronomically long
+    let p = if p_us >= u64::MAX / 2 { 50_000 } else { p_us };
     if rng.chance(0.35) {
         // shape 2: sequential driver with exact gaps
         let steps = rng.range(2, 7);
@@ -104,6 +113,17 @@ fn map_err(e: &RateLimiterServiceError<PErr>) -> Outcome {
     }
 }
 
+/// u64::MAX stands for Duration::MAX, u64::MAX / 2 for that many seconds
+fn big_dur(us: u64) -> Duration {
+    if us == u64::MAX {
+        Duration::MAX
+    } else if us == u64::MAX / 2 {
+        Duration::from_secs(u64::MAX / 2)
+    } else {
+        Duration::from_micros(us)
+    }
+}
+
 fn build_layer(cfg: &Cfg) -> RateLimiterLayer {
     match cfg.preset {
         "per_second" => RateLimiterLayer::per_second(cfg.l).build(),
@@ -112,8 +132,8 @@ fn build_layer(cfg: &Cfg) -> RateLimiterLayer {
         "default" => RateLimiterLayer::builder().build(),
         _ => RateLimiterLayer::builder()
             .limit_for_period(cfg.l)
-            .refresh_period(Duration::from_micros(cfg.p_us))
-            .timeout_duration(Duration::from_micros(cfg.timeout_us))
+            .refresh_period(big_dur(cfg.p_us))
+            .timeout_duration(big_dur(cfg.timeout_us))
             .window_type(match cfg.win {
                 Win::Fixed => WindowType::Fixed,
                 Win::Log => WindowType::SlidingLog,
@@ -136,6 +156,7 @@ pub fn run(cfg: &Cfg, seed: u64) -> (std::sync::Arc<crate::world::World>, crate:
             sim.start_at(c.arrive_us, a);
             if let Some(d) = c.drop_at_us {
                 sim.at(d, What::Drop(a));
+                end = end.max(d);
             }
             end = end.max(c.arrive_us);
         }
@@ -167,9 +188,13 @@ pub fn run(cfg: &Cfg, seed: u64) -> (std::sync::Arc<crate::world::World>, crate:
                 })
             });
             sim.start_at(0, a);
-            end = end.max(cfg.seq.iter().map(|s| s.gap_us + cfg.timeout_us + 1000).sum());
+            end = end.max(cfg.seq.iter().map(|s| s.gap_us + cfg.timeout_us.min(10_000_000) + 1000).sum());
         }
-        sim.horizon = end + cfg.timeout_us + 10 * cfg.p_us + 1_000_000;
+        sim.horizon = end + cfg.timeout_us.min(10_000_000) + 10 * cfg.p_us.min(1_000_000) + 1_000_000;
+        // callers that wait "forever" are cancelled once nothing else can happen
+        for a in 0..sim.n_actors() {
+            sim.at(sim.horizon - 1000, What::Drop(a));
+        }
     });
     (w, stats)
 }
@@ -194,7 +219,7 @@ pub fn cut_feasible(t: &[u64], l: usize, p: u64) -> bool {
         let lo = i.saturating_sub(l);
         for j in lo..i {
             if g[j] != inf {
-                best = best.min(lb.max(g[j] + p));
+                best = best.min(lb.max(g[j].saturating_add(p)));
             }
         }
         if best != inf && best <= t[i] {
@@ -281,7 +306,7 @@ pub fn judge(which: &str, cfg: &Cfg, log: &[Rec]) -> Report {
                 if which == "C15" {
                     // idle clause: after >= 2P without any activity the next L arrivals are admitted at once
                     if let Some(&la) = last_activity.get(&g) {
-                        if a >= la + 2 * p {
+                        if a >= la.saturating_add(p.saturating_mul(2)) {
                             idle_credit.insert(g, l);
                             rep.count("idle_gaps_ge_2P", 1);
                         }
@@ -299,7 +324,7 @@ pub fn judge(which: &str, cfg: &Cfg, log: &[Rec]) -> Report {
                     }
                     // spare-capacity clause (fixed window, sliding log): fewer than L admissions in (a-P, a]
                     if cfg.win != Win::Counter {
-                        let recent = adm.iter().filter(|(t, _)| *t + p > a).count();
+                        let recent = adm.iter().filter(|(t, _)| t.saturating_add(p) > a).count();
                         rep.count("spare_capacity_checks", 1);
                         if recent < l && !admitted_now {
                             rep.violate(
@@ -318,7 +343,7 @@ pub fn judge(which: &str, cfg: &Cfg, log: &[Rec]) -> Report {
                 i.enters.push(r.t);
                 if which == "C15" {
                     if let Some(fp) = i.first_poll {
-                        let bound = fp + to + if fp % 1000 != 0 { 1000 } else if cfg.win == Win::Counter { 999 } else { 0 };
+                        let bound = fp.saturating_add(to).saturating_add(if fp % 1000 != 0 { 1000 } else if cfg.win == Win::Counter { 999 } else { 0 });
                         if r.t > bound {
                             rep.violate(format!("C15:{wname}:admitted-after-timeout"), format!("r{req} arrived t={fp}us, timeout {to}us, admitted at t={}us", r.t));
                         }
@@ -346,7 +371,7 @@ pub fn judge(which: &str, cfg: &Cfg, log: &[Rec]) -> Report {
                                 rep.violate(format!("C15:{wname}:rejected-reached-inner"), format!("r{req} was rejected but had reached the inner service"));
                             }
                             if let Some(fp) = i.first_poll {
-                                let bound = fp + to + if fp % 1000 != 0 { 1000 } else if cfg.win == Win::Counter { 999 } else { 0 };
+                                let bound = fp.saturating_add(to).saturating_add(if fp % 1000 != 0 { 1000 } else if cfg.win == Win::Counter { 999 } else { 0 });
                                 if r.t > bound {
                                     rep.violate(format!("C15:{wname}:rejected-after-timeout"), format!("r{req} arrived t={fp}us, timeout {to}us, rejected at t={}us", r.t));
                                 }
@@ -444,7 +469,8 @@ pub fn judge(which: &str, cfg: &Cfg, log: &[Rec]) -> Report {
     rep.max("max_waiters_woken_at_one_instant", max_same_instant_waiters as u64);
     rep.count("waiters_admitted_later", waiters_total as u64);
     rep.count("rejections", rejected as u64);
-    rep.bucket(format!("{}:{:?} L={} P={}ms T={}ms{}", cfg.preset, cfg.win, l, p / 1000, to / 1000, if cfg.seq.is_empty() { "" } else { " seq" }));
+    let show = |x: u64| if x >= u64::MAX / 2 { "huge".to_string() } else { format!("{}ms", x / 1000) };
+    rep.bucket(format!("{}:{:?} L={} P={} T={}{}", cfg.preset, cfg.win, l, show(p), show(to), if cfg.seq.is_empty() { "" } else { " seq" }));
     rep.nontrivial = match which {
         "C02" => max_same_instant_waiters >= 2 || rejected >= 1 || waiters_total >= 2,
         _ => waiters_total >= 1 && rejected >= 1,
